@@ -1,4 +1,5 @@
 """C08 Reordering"""
+import ecount
 import elevels
 import eswap
 import evlm
@@ -87,5 +88,8 @@ def run(ctx):
     ctx.explain("E-PERM.relabel.cond: update_levels / update_levels_seq relabel every level whose position differs from the stale "
                 "number of its nodes (the parallel variant may skip empty levels only).")
     esort.check_relabel_conditions(ctx, F)
+    ctx.explain("E-COUNT.underflow: no unsigned local that starts at the literal 0 is only ever decremented (it would underflow at its "
+                "first update); detector checked against a built-in positive example on every run.")
+    ecount.run(ctx, F, ('oxidd_reorder',))
     ctx.not_decided = ("that functions are preserved, that the requested order is reached with minimal swaps, "
                        "non-overlap of concurrent swaps (runtime indices)")
